@@ -417,4 +417,25 @@ def superimposeHomologs
   let fitted ← r.2.1.apply mobile
   pure (fitted, r.2.1, f1, m1)
 
+/-! ### `_find_matching_anchors`: offset bookkeeping over the chains -/
+
+/-- `anchors += fixed_seq_offset, mobile_seq_offset`. -/
+def offsetPairs (oF oM : Nat) (ps : List (Nat × Nat)) : List (Nat × Nat) :=
+  ps.map fun p => (p.1 + oF, p.2 + oM)
+
+/-- The loop over the chain pairs.  A chain is `(len(fixed_seq), len(mobile_seq), local anchors)`, the
+local anchors being the gap-free, positively scoring alignment columns of that chain pair (the
+alignment itself belongs to C08 and is an input here).  Each structure's offset advances by the
+length of *its own* chain. -/
+def matchAnchorsFrom : List (Nat × Nat × List (Nat × Nat)) → Nat → Nat → List (Nat × Nat)
+  | [], _, _ => []
+  | (lf, lm, ps) :: rest, oF, oM => offsetPairs oF oM ps ++ matchAnchorsFrom rest (oF + lf) (oM + lm)
+
+/-- `_find_matching_anchors` for the chain lengths of the two structures (`zip(..., strict=True)`:
+a different number of chains is a `ValueError`). -/
+def findMatchingAnchors (fixedChains mobileChains : List Nat) (loc : List (List (Nat × Nat))) :
+    Except Err (List (Nat × Nat)) :=
+  if fixedChains.length ≠ mobileChains.length then .error .valueError
+  else .ok (matchAnchorsFrom (fixedChains.zip (mobileChains.zip loc)) 0 0)
+
 end BiotiteModel.C16
